@@ -791,6 +791,8 @@ class SymFloat:
             nb = min(W, max(lo.bit_length(), hi.bit_length()) + 2)
             return s._to_int_term(
                 lambda e: _sext(z3.fpToSBV(RNE, z3.fpRoundToIntegral(RNE, e), z3.BitVecSort(nb))), lo, hi)
+        if s.intview is not None and isinstance(ndigits, int) and ndigits >= 0:
+            return s          # an integer-valued double is its own rounding to n >= 0 digits
         if s.ratview is None or not isinstance(ndigits, int) or ndigits < 0:
             raise EngineUnsupported("round(x, n) of a float without rational view")
         # Contract model of round(x, n): the double nearest to k/10^n where k is an integer
